@@ -283,6 +283,8 @@ class Interp:
             idx = self.ev(target.slice, env)
             if isinstance(base, (list, dict)):
                 base[idx] = value
+            elif type(base).__module__.startswith("sa.") and hasattr(type(base), "__setitem__"):
+                base[idx] = value  # a model object supplied by the rule
             else:
                 raise AnalysisError(f"absint: unsupported subscript store {src(target)}")
         elif isinstance(target, ast.Attribute):
@@ -591,7 +593,7 @@ class Interp:
         f = self.prims.get("__getattr__")
         if f is not None:
             return f(base, attr)
-        if type(base).__module__.startswith("sa.") and not attr.startswith("__") and hasattr(base, attr):
+        if type(base).__module__.startswith("sa.") and (not attr.startswith("__") or attr in ("__setitem__", "__getitem__", "__delitem__", "__contains__", "__call__", "__len__")) and hasattr(base, attr):
             return getattr(base, attr)  # attribute of a model object supplied by the rule
         raise AnalysisError(f"absint: attribute `{attr}` of {base!r} in `{src(node)[:60]}`")
 
